@@ -240,6 +240,16 @@ theorem five_end_has_no_phosphate :
   five_end_shape
 
 open P2P.NucCharge P2P.Proofs.Nuc in
+/-- **run-time reference = named definition, for nucleotides** (the counterpart of C03's
+`runtime_reference_is_named_definition`): for each of the eight bases at each strand position the atoms
+`Biomolecule.apply_patch` leaves the residue with (base definition + `5TERM` / `3TERM`) are the atoms of the
+definition `Definition.__init__` built at load time under the look-up name (`DA5` … `RU3`) — all 24 exist.
+False before the `fix:` commit 2d5aba7: there was no definition `DT5`. -/
+theorem nucleotide_runtime_is_named_definition :
+    bases.all (fun b => namedOK b .five && namedOK b .mid && namedOK b .three) = true :=
+  nuc_named_all
+
+open P2P.NucCharge P2P.Proofs.Nuc in
 /-- full strength refuted for a chimeric strand: a DNA 5' end followed by an RNA 3' end sums to
 −0.9998 e under AMBER (the two sugar kinds split the end charge differently: −0.3079/−0.6921 vs
 −0.3081/−0.6919). Known finding; `strand_minus_one_per_phosphate` therefore asks for one kind. -/
